@@ -81,6 +81,20 @@ fn incremental(c: &mut Ctx) {
                     }
                     c.count("incr.odd_sink_saves");
                 }
+                // the two-revision file loaded as a plain Document and saved again (both cross-reference kinds): one revision,
+                // nothing of the history may leak into it (a `Prev` left in the trailer points into the middle of an object)
+                if let Ok(Ok(loaded)) = guard(|| Document::load_mem(&out)) {
+                    for flat_stream in [false, true] {
+                        let mut d2 = loaded.clone();
+                        d2.reference_table.cross_reference_type = if flat_stream { XrefType::CrossReferenceStream } else { XrefType::CrossReferenceTable };
+                        let before2 = d2.clone();
+                        let mut flat = Vec::new();
+                        if let Ok(Ok(())) = guard(|| d2.save_to(&mut flat)) {
+                            check_strict(c, &before2, &flat, if flat_stream { "stream" } else { "table" }, "flatten");
+                            if let Ok(Ok(sd)) = guard(|| strict_load(&flat)) { if sd.revisions != 1 { c.oracle_fail("strict:revisions", &format!("a plain save of a loaded history has {} revisions", sd.revisions), json!({"file": hex(&flat)})); } }
+                        }
+                    }
+                }
                 match guard(|| strict_load(&out)) {
                     Ok(Ok(sd)) => {
                         if sd.revisions != 2 { c.oracle_fail("strict:revisions", &format!("strict reader sees {} revisions, expected 2", sd.revisions), json!({"file": hex(&out)})); }
